@@ -708,6 +708,13 @@ impl NISPSignaturePoK {
         let hash = <CS::HashAlg as Digest>::digest(str);
         let challenge = Integer::from_digits(hash.as_slice(), Order::MsfBe);
 
+        // the four commitments are elements of Z_N: only their reduced representatives are accepted
+        let reduced = |c: &CL03Commitment| c.value >= 0 && &c.value < N;
+
         challenge == self.challenge
+            && reduced(&self.Cx)
+            && reduced(&self.Cv)
+            && reduced(&self.Cw)
+            && reduced(&self.Ce)
     }
 }
